@@ -31,7 +31,7 @@ def segs(b):
     return out
 
 
-def make_inputs(chk, work, rng, n):
+def make_inputs(chk, work, rng, n, nfam=None):
     """Real exporter files with differing parameters / tick rates / hints / versions."""
     hs = []
     for i in range(n):
@@ -52,6 +52,26 @@ def make_inputs(chk, work, rng, n):
             raw["noidx"] = True
             h["ops"].insert(rng.randrange(len(h["ops"]) + 1), raw)
         hs.append(h)
+    # a family of files that hold the SAME records under parameter sets differing in exactly one member each
+    # (tick rate kept: the records are timed for it); merged pairwise below
+    fam_rng = random.Random(rng.random())
+    pools = histgen.Pools(fam_rng)
+    base_bp = histgen.gen_bp(fam_rng, pools, tps=1000000, maxitems=10000, hints=(histgen.ALL_QRH, histgen.ALL_SIGH, 3, 3), rich=True,
+                             coll=histgen.gen_coll(fam_rng, pools, mode=fam_rng.choice(["full", "some"])))
+    for f, v in (("storage_flags", [1]), ("client_address_prefix_ipv4", [24]), ("client_address_prefix_ipv6", [64]),
+                 ("server_address_prefix_ipv4", [32]), ("server_address_prefix_ipv6", [64]),
+                 ("sampling_method", [65, 83]), ("anonymization_method", [67, 90])):
+        if fam_rng.random() < 0.8:
+            base_bp.setdefault(f, v)
+    fam = histgen.gen_history(fam_rng, nops=5, comp="none", out="file", rot=False, sizes=[10000], nbps=1, stats_p=0.0)
+    fam["ops"] = [o for o in fam["ops"] if o["op"] in ("qr", "aec", "mm")] + [{"op": "wb"}]
+    variants = [("base", base_bp)] + histgen.bp_neighbours(fam_rng, pools, base_bp)
+    if nfam is not None:
+        variants = variants[:1] + fam_rng.sample(variants[1:], min(nfam, len(variants) - 1))
+    for name, bp in variants:
+        h = json.loads(json.dumps(fam))
+        h["preamble"]["bps"] = [bp]
+        hs.append(h)
     hist = work / "hist.ndjson"
     hist.write_text("\n".join(json.dumps(h) for h in hs) + "\n")
     keep = work / "files"
@@ -62,9 +82,10 @@ def make_inputs(chk, work, rng, n):
     if r.returncode != 0:
         raise vlib.Infra("exp_driver failed: " + r.stderr[-500:])
     files = sorted(keep.glob("*.cdns"))
-    if len(files) < 3:
+    if len(files) < 3 + len(variants):
         raise vlib.Infra("no input files generated")
-    return files
+    chk.extra["parameter_neighbour_files"] = [v[0] for v in variants]
+    return files[:len(files) - len(variants)], files[len(files) - len(variants):]
 
 
 def run_tuple(tools, work, idx, tup, trace):
@@ -120,7 +141,8 @@ def run(tier):
     chk.rule = ("model: all tuples of 1..3 inputs from {ok with 1-2 parameter sets, version mismatch, unopenable, truncated, "
                 "empty-block-only, same file twice}: MergeImpl = MergeAbs; traces: tuples of real exporter files (differing "
                 "parameter sets, tick rates, hints, versions; truncated at block boundaries and elsewhere; missing / garbage / "
-                "empty files; a file listed twice) through the real cdns-merge; inputs and output parsed by TLC; cdns-itemcount "
+                "empty files; a file listed twice; files holding the same records under parameter sets that differ in exactly one "
+                "member, value or presence) through the real cdns-merge; inputs and output parsed by TLC; cdns-itemcount "
                 "with all four option combinations; distinct = tool runs")
     chk.assumptions = ["TLC + CommunityModules", "Cbor.tla / CdnsFormat.tla as the independent reading",
                        "python orchestration: building argument lists, capturing stdout"]
@@ -134,7 +156,7 @@ def run(tier):
 
     rng = random.Random(chk.seed * 29 + 18)
     work = vlib.scratch("c18")
-    files = make_inputs(chk, work, rng, 14 if tier == "quick" else 60)
+    files, family = make_inputs(chk, work, rng, 14 if tier == "quick" else 60, nfam=22 if tier == "quick" else None)
     tools = vlib.build_tools("plain")
     ntuples = 28 if tier == "quick" else 600
     nsh = min(vlib.NCPU, ntuples)
@@ -160,6 +182,14 @@ def run(tier):
         data = run_tuple(tools, work, idx, tup, tr)
         if idx % 3 == 0 and data:
             run_counts(tools, work, idx, data, tr)
+    # files whose parameter sets are one member apart: (base, neighbour) in both orders, neighbour pairs, one longer tuple
+    idx = ntuples
+    fam_tuples = [[family[0], f] for f in family[1:]] + [[f, family[0]] for f in family[1::4]]
+    fam_tuples += [[family[i], family[i + 1]] for i in range(1, len(family) - 1, 3)]
+    fam_tuples.append(list(family[:6]))
+    for tup in fam_tuples:
+        run_tuple(tools, work, idx, [("ok", f, None, None) for f in tup], handles[idx % nsh])
+        idx += 1
     for i, f in enumerate(files[:6 if tier == "quick" else 30]):
         run_counts(tools, work, 10000 + i, f.read_bytes(), handles[i % nsh])
     for h in handles:
